@@ -465,8 +465,50 @@ def noncontiguous_probe(ctx, xt):
                 ctx.fail("oracle", "packer:noncontiguous:flat-roundtrip", dict(info, unique=u), flat.tolist(), want.tolist())
 
 
+def attribute_interception_probe(ctx, xt):
+    """attribute-bearing objects are read AND refilled through their instance dictionary: a class that intercepts attribute assignment
+    (a frozen dataclass; a __setattr__ that stores a detached copy) is rebuilt like any other object and position i holds the i-th
+    supplied tensor itself (round-6 seed C20/15: _put_tensors wrote with setattr while _extract_tensors read __dict__)"""
+    import dataclasses
+
+    @dataclasses.dataclass(frozen=True)
+    class Frozen:
+        w: torch.Tensor
+        k: int
+        b: torch.Tensor
+
+    class Detaching:
+        def __init__(self, w, b):
+            self.__dict__["w"] = w
+            self.__dict__["b"] = b
+
+        def __setattr__(self, key, val):
+            self.__dict__[key] = val.detach().clone() if isinstance(val, torch.Tensor) else val
+    mk = lambda v: torch.tensor([v, v + 0.5], dtype=torch.float64)
+    for name, build_obj in (("frozen dataclass", lambda: Frozen(mk(1.0), 3, mk(2.0))), ("class with a detaching __setattr__", lambda: Detaching(mk(1.0), mk(2.0)))):
+        for u in (False, True):
+            ctx.count(("attribute-interception", name, u), nontrivial=True)
+            obj = {"o": build_obj(), "t": mk(5.0)}
+            try:
+                pk = xt.Packer(obj)
+                lst = pk.get_param_tensor_list(unique=u)
+                sup = [torch.zeros_like(t) + 10 + i for i, t in enumerate(lst)]
+                new = pk.construct_from_tensor_list(list(sup), unique=u)
+                got = xt.Packer(new).get_param_tensor_list(unique=False)
+                flat = pk.get_param_tensor(unique=u)
+                back = pk.construct_from_tensor(flat * 2, unique=u)
+                gotf = xt.Packer(back).get_param_tensor_list(unique=False)
+            except Exception as e:
+                ctx.fail("oracle", "packer:attribute-interception:exception", {"object": name, "unique": u}, repr(e)[:200], "a rebuilt structure")
+                continue
+            if [id(x) for x in got] != [id(x) for x in sup] or not all(torch.equal(a, b * 2) for a, b in zip(gotf, lst)):
+                ctx.fail("oracle", "packer:attribute-interception:positions", {"object": name, "unique": u}, "rebuilt slots are not the supplied tensors",
+                         "position i holds the i-th supplied tensor")
+
+
 def check(ctx):
     import xitorch as xt
+    attribute_interception_probe(ctx, xt)
     noncontiguous_probe(ctx, xt)
     tuple_opacity_probe(ctx, xt)
     dtype_and_shape_history_probe(ctx, xt)
